@@ -327,6 +327,17 @@ def run(ctx):
         ctx.fail('C08.R7', f.key, f.site, f.message + ' - a batch that was executed is then answered with an anonymous too-large error')
     if not lifted:
         ctx.ok('C08.R7', 'kmip/services/server/session.py KmipSession._handle_message_loop', 'size test after encode, replacement only under the per-request maximum')
+    # ---------------- C08.R8 (lifted from C05)
+    ctx.rule('C08.R8', 'the column converters of the object store (kmip/pie/sqltypes.py) never raise: they run during flush and load, i.e. after the row was inserted and committed, so an exception there makes a creating item report failure although its object is stored (lifted from C05.R3)')
+    from ..report import Ctx as _LCtx_C08_R8
+    from . import c05 as _lsrc_C08_R8
+    _sub_C08_R8 = _LCtx_C08_R8('C05', 'quick', ctx.src, 0)
+    _lsrc_C08_R8.run(_sub_C08_R8)
+    _lifted_C08_R8 = [f for f in _sub_C08_R8.findings if f.rule == 'C05.R3' and '|total' in f.key]
+    for f in _lifted_C08_R8:
+        ctx.fail('C08.R8', f.key, f.site, f.message)
+    if not _lifted_C08_R8:
+        ctx.ok('C08.R8', 'lifted from C05', 'column converters are total')
     ctx.not_decided += ['equality of store snapshots before/after a failed item for implicit exceptions raised by third-party code after a mutation',
                         'batch order option semantics']
     ctx.assumptions += ['a fresh object that was never add()ed to the session leaves no trace', 'the SQLAlchemy session flushes pending changes at the next commit (no rollback in _process_batch)']
